@@ -276,8 +276,6 @@ Definition deviation_witnesses : list (string * list value) := [
   ("~{~A~^,~}", [ints [1; 2; 3]]);                                   (* caret *)
   ("~A~^ more", [VInt 1]);
   ("~2R", [VInt 5]);                                                  (* radix ignored *)
-  ("~R", [VInt 20]);                                                  (* empty word *)
-  ("~R", [VInt 20001]);
   ("~:R", [VInt 100]);                                                (* ordinal of a round number *)
   ("~:R", [VInt 20]);
   ("~R", [VInt 1000000000000000000000000000000000000000000000000000000000000000001]);   (* beyond the table *)
